@@ -60,6 +60,9 @@ def tiered(fn):
 def dyadic_case(draw, max_n=256):
     c = draw(base_case(max_n))
     c['c'] = draw(st.sampled_from([1.0, -1.0])) * 2.0 ** draw(st.integers(-8, 8))
+    en = draw(st.sampled_from([None, None, None, 30, 50]))
+    if en is not None:
+        c['opts'] = dict(c['opts'], energy_thresh=en)       # the energy criterion is a ratio (dB): scale free
     if c['sig'].get('dtype') in ('f2', 'f4', 'i2') and draw(st.booleans()):
         # narrow storage: large factors (squares beyond the range of the narrow type) and the SD rule, whose metric squares
         c['c'] = draw(st.sampled_from([1.0, -1.0])) * 2.0 ** draw(st.integers(6, 8))
